@@ -53,8 +53,14 @@ func newWorld(seed int64) *world {
 	return w
 }
 
+// rawPeer builds a Peer with exactly these strings (peers.NewPeer normalises invalid UTF-8 to U+FFFD
+// since b2c4118; the shape product needs both)
+func rawPeer(pubKeyHex, netAddr, moniker string) *peers.Peer {
+	return &peers.Peer{PubKeyHex: pubKeyHex, NetAddr: netAddr, Moniker: moniker}
+}
+
 func (w *world) peer(i int, moniker string) *peers.Peer {
-	return peers.NewPeer(w.phex[i], fmt.Sprintf("addr%d:1337", i), moniker)
+	return rawPeer(w.phex[i], fmt.Sprintf("addr%d:1337", i), moniker)
 }
 
 func (w *world) validators() []*peers.Peer {
@@ -171,7 +177,7 @@ var itxShapeNames = []string{"nil", "empty", "one", "many", "HOSTILE"}
 
 // an internal transaction about key k, signed by k (Event.Verify checks these signatures)
 func (w *world) itx(k int, strShape int) hg.InternalTransaction {
-	p := *peers.NewPeer(w.phex[k], fmt.Sprintf("addr%d:%d", k, w.rng.Intn(9999)), w.strOf(strShape))
+	p := *rawPeer(w.phex[k], fmt.Sprintf("addr%d:%d", k, w.rng.Intn(9999)), w.strOf(strShape))
 	var t hg.InternalTransaction
 	if w.rng.Intn(3) == 0 {
 		t = hg.NewInternalTransactionLeave(p)
@@ -179,7 +185,7 @@ func (w *world) itx(k int, strShape int) hg.InternalTransaction {
 		t = hg.NewInternalTransactionJoin(p)
 	}
 	t.Sign(w.privs[k])
-	w.a.S(t.Signature)
+	w.a.G(t.Signature)
 	return t
 }
 
@@ -204,7 +210,7 @@ func (w *world) itxs(shape int) ([]hg.InternalTransaction, int) {
 	}
 }
 
-var bsShapeNames = []string{"nil", "empty", "one", "many", "FOREIGN", "NILVAL", "BADSTR"}
+var bsShapeNames = []string{"nil", "empty", "one", "many", "FOREIGN", "NILVAL", "BADSTR", "UNDECODABLE"}
 
 func (w *world) bsig(validator []byte, sigShape int) hg.BlockSignature {
 	var sig string
@@ -212,7 +218,7 @@ func (w *world) bsig(validator []byte, sigShape int) hg.BlockSignature {
 		h := make([]byte, 32)
 		w.rng.Read(h)
 		r, s, _ := keys.Sign(w.privs[w.rng.Intn(nKeys)], h)
-		sig = w.a.S(keys.EncodeSignature(r, s))
+		sig = w.a.G(keys.EncodeSignature(r, s))
 	} else {
 		sig = w.strOf(sigShape)
 	}
@@ -234,7 +240,6 @@ func (w *world) bsigs(shape int, creator int) ([]hg.BlockSignature, bool, int) {
 		for i, n := 0, 2+w.rng.Intn(8); i < n; i++ {
 			l = append(l, w.bsig(me, -1))
 		}
-		// arbitrary signature strings are refused by Event.Verify since /repo bc8842f (block signatures must decode)
 		return l, true, 0
 	case 4:
 		return []hg.BlockSignature{w.bsig(me, -1), w.bsig(w.pubs[(creator+1)%nKeys], -1)}, false, 0
@@ -243,9 +248,12 @@ func (w *world) bsigs(shape int, creator int) ([]hg.BlockSignature, bool, int) {
 			return []hg.BlockSignature{w.bsig(nil, -1)}, false, 0
 		}
 		return []hg.BlockSignature{w.bsig([]byte{}, -1)}, false, 0
-	default:
+	case 6:
 		s := strBadUTF8 + w.rng.Intn(2)
 		return []hg.BlockSignature{w.bsig(me, s)}, true, s
+	default:
+		// valid text that keys.DecodeSignature does not accept (refused by Event.Verify since bc8842f)
+		return []hg.BlockSignature{w.bsig(me, -1), w.bsig(me, w.rng.Intn(8))}, true, 0
 	}
 }
 
@@ -289,7 +297,7 @@ func init() {
 		}
 	}
 	// hostile shapes (each needs something specific; not multiplied out)
-	for _, h := range []evShape{{4, 4, 0}, {0, 4, 2}, {1, 0, 4}, {5, 2, 4}, {0, 0, 5}, {7, 3, 5}, {1, 1, 6}, {4, 2, 6}} {
+	for _, h := range []evShape{{4, 4, 0}, {0, 4, 2}, {1, 0, 4}, {5, 2, 4}, {0, 0, 5}, {7, 3, 5}, {1, 1, 6}, {4, 2, 6}, {0, 0, 7}, {5, 3, 7}} {
 		evProduct = append(evProduct, h)
 	}
 }
